@@ -53,6 +53,9 @@ def gen_conf(rng, P):
     # always make the outcome observable unless the step is about the default output
     if "output" not in opts and rng.random() < 0.7:
         lines.append("output = " + rng.choice(P["output"][:3]))
+    if rng.random() < 0.3:
+        # a damaged file: one line is a syntax error, every other line is still honoured by the parser
+        lines.insert(rng.randrange(1, len(lines) + 1), rng.choice(["this line has no separator", "=", "[unterminated", "???"]))
     return ("file", ("\n".join(lines) + "\n").encode())
 
 
